@@ -189,3 +189,4 @@ def run(ctx):
                        'infectious at or immediately before t', 'induced moves of the generic simulator are read from the specification']
     for sim in simrun.SINGLE_NEIGHBOUR:
         run_hypothesis(ctx, 'transmissions', c09_case(sim), prop_case, (220 if sim == 'Gillespie_simple_contagion' else 130) if quick else 5000, rounds=3)
+        run_hypothesis(ctx, 'large', simrun.large_case(sim), prop_case, 20 if quick else 300, rounds=2, case_timeout=300)
